@@ -119,6 +119,7 @@ structure HistInv (s : St) (hist : List (Task × Res)) : Prop where
   first : ∀ f r, (Task.pp f true, r) ∈ hist → f ∈ s.seen ∧ Task.pp f true ∉ s.pool
   final : ∀ f r, (Task.pp f false, r) ∈ hist → f ∈ s.dm.fin
   firstOk : ∀ f g, (Task.pp f true, Res.ok g) ∈ hist → f ∈ s.dm.fin
+  finHist : ∀ f ∈ s.dm.fin, ∃ b, (Task.pp f b, Res.ok f) ∈ hist
 
 /-- recording the result of a task that is in the pool does not disturb what the world says about the
     tasks delivered earlier: nothing about that file's pass was delivered before -/
@@ -171,7 +172,8 @@ theorem freach_world (inputs : List File) (s : St) (hist : List (Task × Res)) (
   induction h with
   | init =>
     exact ⟨⟨fun _ => [], fun _ => false, fun _ => false⟩, fun t r hm => by simp at hm,
-      ⟨fun t r hm => by simp at hm, fun f r hm => by simp at hm, fun f r hm => by simp at hm, fun f g hm => by simp at hm⟩⟩
+      ⟨fun t r hm => by simp at hm, fun f r hm => by simp at hm, fun f r hm => by simp at hm, fun f g hm => by simp at hm,
+       fun f hf => by simp [init, execFiles_dm] at hf⟩⟩
   | step s s' hist t r hprev ht hty hc ih =>
     obtain ⟨w, hw, hH⟩ := ih
     have hR : Reach w inputs s := freach_replay w inputs s hist hprev hw
@@ -183,7 +185,7 @@ theorem freach_world (inputs : List File) (s : St) (hist : List (Task × Res)) (
       have hfseen : f ∈ s.seen := hI.poolSeen f b ht
       -- the new history invariant
       have hH' : HistInv s' (hist ++ [(Task.pp f b, r)]) := by
-        refine ⟨?_, ?_, ?_, ?_⟩
+        refine ⟨?_, ?_, ?_, ?_, ?_⟩
         · intro t' r' hm
           rcases List.mem_append.1 hm with hm | hm
           · exact hH.typed t' r' hm
@@ -221,6 +223,27 @@ theorem freach_world (inputs : List File) (s : St) (hist : List (Task × Res)) (
             subst h1; subst h3; subst h2
             simp only [WellTyped] at hty; subst hty
             rw [handle_ok_fin _ s' _ hc]; exact List.mem_cons_self
+        · intro g hg
+          cases r with
+          | err => simp [WellTyped] at hty
+          | hasDeps a deps =>
+            have hfe : s'.dm.fin = s.dm.fin := by
+              have hc' := hc
+              unfold handle at hc'
+              simp only at hc'
+              split at hc'
+              · simp only [Out.cont.injEq] at hc'; subst hc'; rw [execFiles_dm]; simp only; rw [addDependency_fin]
+              · simp only [Out.cont.injEq] at hc'; subst hc'; rw [execFile_dm]; simp only; rw [addDependency_fin]
+            rw [hfe] at hg
+            obtain ⟨b', hb'⟩ := hH.finHist g hg
+            exact ⟨b', List.mem_append_left _ hb'⟩
+          | ok a =>
+            simp only [WellTyped] at hty; subst hty
+            rw [handle_ok_fin _ s' _ hc] at hg
+            rcases List.mem_cons.1 hg with rfl | hg
+            · exact ⟨b, List.mem_append_right _ (by simp)⟩
+            · obtain ⟨b', hb'⟩ := hH.finHist g hg
+              exact ⟨b', List.mem_append_left _ hb'⟩
       refine ⟨setWorld w (Task.pp f b) r, ?_, hH'⟩
       intro t' r' hm0
       rcases List.mem_append.1 hm0 with hmo | hmn
@@ -248,5 +271,25 @@ theorem freach_never_panics (inputs : List File) (s : St) (hist : List (Task × 
   have := never_panics (setWorld w t r) inputs s hR' t ht
   rw [setWorld_result w t r hty] at this
   exact this
+
+/-- C02 along executions with free results: when the final pass of a file is in flight, every dependency
+    its first pass reported has already completed a pass that ended `ok` -/
+theorem freach_second_pass_after_deps (inputs : List File) (s : St) (hist : List (Task × Res)) (h : FReach inputs s hist)
+    (a : File) (ha : Task.pp a false ∈ s.pool) (deps : List File) (hd : (Task.pp a true, Res.hasDeps a deps) ∈ hist) :
+    ∀ d ∈ deps, ∃ b, (Task.pp d b, Res.ok d) ∈ hist := by
+  obtain ⟨w, hw, hH⟩ := freach_world inputs s hist h
+  have hR : Reach w inputs s := freach_replay w inputs s hist h hw
+  have hwr := hw _ _ hd
+  have hdeps : w.deps a = deps := by
+    by_cases he : w.deps a = []
+    · simp only [World.result, he, if_true] at hwr
+      split at hwr <;> simp at hwr
+    · rw [result_first_deps w a he] at hwr
+      split at hwr
+      · simp at hwr
+      · simp only [Res.hasDeps.injEq] at hwr; exact hwr.2
+  intro d hdm
+  have := second_pass_after_deps w inputs s hR a ha d (by rw [hdeps]; exact hdm)
+  exact hH.finHist d this
 
 end Coord
